@@ -131,6 +131,55 @@ def _build(cfg: dict, src, dtype):
     return lk, subs, shared
 
 
+def _build_staged(cfg: dict, src, dtype, symbolic: bool):
+    """The linker in the state under test, reached through a HISTORY when cfg['stage'] is set ('history' | 'history_copy'):
+    every period solved before with OTHER selections of submodels (one, two, ... in turn) and scripted, converging passes;
+    optionally the linker copied; then every series re-installed by whole-series assignment, marks reset, scripts
+    re-attached.  Whatever the linker remembers from the earlier calls (a selection, arrays, positions) is stale."""
+    lk, subs, shared = _build(cfg, src, dtype)
+    stage = cfg.get('stage')
+    if not stage:
+        return lk, subs, shared
+    target = _snapshot(lk, subs)
+    scripts = {sid: m._script_state()['script'] for sid, m in subs.items()}
+    x = lk.__dict__['_lx']
+    L = cfg['L']
+    for sid, m in subs.items():
+        pre = Script(1, 2)
+        pre.v[1] = pre.v[2] = [1.0]
+        m.attach(pre)
+        m._script_state()['id'] = sid
+    lk.__dict__['_lx'] = {'log': [], 'wb': [None, 1.0, 1.0], 'wa': [None, 1.0, 1.0]}
+    for (owner, n), vals in target.items():     # the history runs on plain numbers
+        arr = (lk if owner == 'L' else subs[owner]).__dict__['_' + n]
+        for j in range(len(vals)):
+            arr[j] = 1.0
+    ids = list(subs)
+    with (shimmed() if symbolic else contextlib.nullcontext()):
+        for j in range(L):
+            if ids:
+                _run(lambda: lk.solve_t(j, max_iter=2, failures='ignore', submodels=ids[:1 + j % len(ids)]))
+            else:
+                _run(lambda: lk.solve_t(j, max_iter=2, failures='ignore'))
+    if stage == 'history_copy':
+        lk = lk.copy()
+        subs = dict(lk.__dict__['submodels'])
+    for (owner, n), vals in target.items():
+        setattr(lk if owner == 'L' else subs[owner], n, list(vals))
+    for o in [lk] + list(subs.values()):
+        o.status = '-'
+        o.iterations = -1
+    del shared[:]
+    for sid, m in subs.items():
+        m.attach(scripts[sid])
+        st = m._script_state()
+        st['id'] = sid
+        st['tlog'] = shared
+    x['log'] = shared
+    lk.__dict__['_lx'] = x
+    return lk, subs, shared
+
+
 def _opts(cfg, src):
     tol = src.f('tol')
     min_iter = src.i('min_iter') if cfg['min_iter'] == 'sym' else cfg['min_iter']
@@ -238,7 +287,7 @@ def _scenario(cfg: dict, src, dtype, symbolic: bool):
     tc = t if t >= 0 else t + L
     bad: List[str] = []
     cell_bad: list = []
-    lk, subs, log = _build(cfg, src, dtype)
+    lk, subs, log = _build_staged(cfg, src, dtype, symbolic)
     tol, min_iter, offset = _opts(cfg, src)
     sel = cfg['select'] if cfg['select'] is not None else list(subs.keys())
     init = _snapshot(lk, subs)
@@ -556,6 +605,17 @@ def configs(tier: str):
                             if t == -1 and (own or failures == 'ignore'):
                                 continue
                             out.append(cfg8(n_sub=n_sub, B=B, own=own, select=sel, failures=failures, t=t, offset=offset))
+    # HISTORIES: the linker has solved other periods with other selections before (and may have been copied since)
+    for stage in ('history', 'history_copy'):
+        for n_sub in (2, 3) if tier == 'quick' else (1, 2, 3):
+            ids = IDS[:n_sub]
+            for sel in (None, list(ids), list(ids[1:]), list(reversed(ids)), []):
+                for own in (False, True):
+                    for B in (1, 2):
+                        if tier == 'quick' and n_sub == 3 and (own or B == 2):
+                            continue
+                        for failures in ('raise', 'ignore'):
+                            out.append(cfg8(n_sub=n_sub, B=B, own=own, select=sel, failures=failures, t=1, offset='zero', stage=stage))
     # wrapper law
     for B in Bs:
         for failures in ('raise', 'ignore'):
@@ -586,7 +646,7 @@ def finding_key(cfg: dict, cand: dict) -> str:
         return 'offset-ignored'
     if cfg['mode'] in ('solve_t', 'wrapper') and ("('ret', True)" in bad or "'.'" in bad) and 'impl' in bad:
         return 'converges-on-squared-difference'
-    return f"mode={cfg['mode']},n={cfg['n_sub']},B={cfg['B']},own={cfg['own']},sel={cfg['select']},t={cfg['t']}:{cand['replay']['bad'][0] if cand['replay']['bad'] else '?'}"
+    return f"mode={cfg['mode']},n={cfg['n_sub']},B={cfg['B']},own={cfg['own']},sel={cfg['select']},t={cfg['t']}{',' + cfg['stage'] if cfg.get('stage') else ''}:{cand['replay']['bad'][0] if cand['replay']['bad'] else '?'}"
 
 
 def main() -> int:
